@@ -206,7 +206,7 @@ func prop(c Case) error {
 		select {
 		case ev := <-ch:
 			return ev, true
-		case <-pbt.After(d):
+		case <-pbt.Idle(d):
 			return nil, false
 		}
 	}
@@ -258,7 +258,7 @@ func prop(c Case) error {
 			}
 		}
 		// drain whatever is queued, then input and resize delivery must work again
-		deadline := time.Now().Add(pbt.Scaled(5 * time.Second))
+		deadline := time.Now().Add(pbt.IdleDur(5 * time.Second))
 		for s.HasPendingEvent() || tty.QueuedInput() > 0 {
 			if _, ok := pollOne(2 * time.Second); !ok || time.Now().After(deadline) {
 				break
@@ -458,7 +458,7 @@ wait:
 		}
 		// Fini (or quit) is the cancellation signal: the forwarding goroutine must
 		// leave even though its consumer has stopped receiving, and close the channel
-		deadline := time.Now().Add(pbt.Scaled(5 * time.Second))
+		deadline := time.Now().Add(pbt.IdleDur(5 * time.Second))
 		for channelEventsCount() > chanBaseline && time.Now().Before(deadline) {
 			time.Sleep(2 * time.Millisecond)
 		}
